@@ -242,6 +242,24 @@ func runC06(c *runCfg) error {
 			}
 		}
 	}
+	// skipping until Sync is the business of the connection whose batch failed: other connections of the server are
+	// answered normally meanwhile, and their Syncs end nobody else's skipping
+	for r := 0; r < 6; r++ {
+		failing := lockCase(0, "skip_is_per_connection", cfg, startupMsg("user", "failing"), [][]byte{
+			[][]byte{mBind(nil, []byte("missing"), nil, nil, nil), mExecute([]byte("nope"), 0), msg('P', big)}[r%3],
+			mParse(nil, []byte("ok"), 0), mBind(nil, nil, nil, nil, nil), mExecute(nil, 0), mSync(), mQuery([]byte("ok"))})
+		failing.id = fmt.Sprintf("%d.0", 800000+r)
+		healthy := lockCase(0, "skip_is_per_connection", cfg, startupMsg("user", "healthy"), [][]byte{
+			mParse(nil, []byte("ok"), 0), mBind(nil, nil, nil, nil, nil), mDescribe('P', nil), mExecute(nil, 0), mSync(), mQuery([]byte("ok"))})
+		healthy.id = fmt.Sprintf("%d.1", 800000+r)
+		// the failing connection stops right behind its error; the healthy one runs its whole batch (Sync included);
+		// then the failing one goes on: still skipping until its own Sync
+		sched := []int{0, 1, 0, 1, 1, 1, 1, 1, 1, 0, 0, 0, 0, 0}
+		if r >= 3 {
+			sched = []int{1, 0, 0, 1, 1, 0, 1, 1, 0, 1, 0, 1, 0, 0}
+		}
+		emitMulti(c, "skip_is_per_connection", []*caseT{failing, healthy}, sched, false)
+	}
 	// a statement function that panics under Execute (an inadmissible result-format code makes the encoder panic):
 	// exactly one ErrorResponse, no ReadyForQuery before the Sync, the rest of the batch skipped, one ReadyForQuery
 	for _, code := range []int{2, 7, 65535} {
